@@ -29,7 +29,7 @@ macro_rules! props {
                 $($id => $m::describe(tier, r),)*
                 _ => {}
             }
-            if ["C01", "C04", "C08", "C09", "C10", "C11", "C12", "C13", "C15"].contains(&id) {
+            if ["C01", "C04", "C08", "C10", "C11", "C12", "C13", "C15"].contains(&id) {
                 r.rule.push_str("; trait surface model: root -> one state per (family of provided trait functions, 4 keys, 5 messages (thorough 8), 3 schemes, variant), each calling the trait functions directly (not through the structs) and comparing values and verdicts with the reference model under the entropy and clock seams");
             }
             if ["C01", "C02", "C09"].contains(&id) {
